@@ -446,7 +446,10 @@ def check_history(case, ctx):
         skip_values_rows = set()          # rows whose value clause is excluded by a known finding
         if name == "select":
             idx = [r % n for r in op[1]]
-            new = cur.select_taxa(idx)
+            # the same entities addressed through negative indices in a third of the positions (a tail selection)
+            arg = [(i - n) if (r // 11) % 3 == 0 else i for i, r in zip(idx, op[1])]
+            ctx.label("select_with_negative_index", any(a < 0 for a in arg))
+            new = cur.select_taxa(arg if (op[1][0] // 5) % 2 == 0 else numpy.array(arg, dtype="int64"))
             model2 = [dict(model[i]) for i in idx]
         elif name in ("delete", "remove"):
             arg = op[1]
@@ -459,7 +462,7 @@ def check_history(case, ctx):
                 if n == 1:
                     continue
                 idx = [arg % n]
-                obj = idx[0]
+                obj = idx[0] - n if (arg // 11) % 3 == 0 else idx[0]
             model2 = [r for i, r in enumerate(model) if i not in idx]
             if name == "delete":
                 new = cur.delete_taxa(obj)
